@@ -128,6 +128,13 @@ func Gen(rng *rand.Rand, class string, o GenOpts) *Batch {
 		nDocs, nFieldNames, maxInst, nTerms, maxToks = 1100+rng.Intn(1500), 1+rng.Intn(2), 1, 3+rng.Intn(3), 2
 	case "stored":
 		nDocs, nFieldNames, maxInst, nTerms, maxToks = 2+rng.Intn(10), 2+rng.Intn(5), 1+rng.Intn(3), 4, 2
+	case "multi":
+		// multi-valued field: the number of field instances holding a term and the
+		// number of documents holding it lie on different sides of 1024 (or 2048)
+		return genMulti(rng, o)
+	case "xwide":
+		// more than 128 fields: field ids need two varint bytes
+		return genXWide(rng, o)
 	default:
 		panic("unknown class " + class)
 	}
@@ -136,6 +143,16 @@ func Gen(rng *rand.Rand, class string, o GenOpts) *Batch {
 	}
 	names := pick(rng, FieldPool, nFieldNames)
 	terms := pick(rng, TermPool, nTerms)
+	if class == "tall" && rng.Intn(2) == 0 {
+		// the empty term is an ordinary term, also in big dictionaries
+		has := false
+		for _, t := range terms {
+			has = has || t == ""
+		}
+		if !has {
+			terms[0] = ""
+		}
+	}
 	if o.Names != nil {
 		names = o.Names
 	}
@@ -341,6 +358,13 @@ func addSynonymDocs(rng *rand.Rand, b *Batch, prefix string) {
 					sf.Pairs = append(sf.Pairs, p)
 				}
 			}
+			if rng.Intn(12) == 0 {
+				// analysis can leave a definition without any synonym (e.g. stop
+				// words): its terms then have no pairs; a thesaurus may end up empty
+				for pi := range sf.Pairs {
+					sf.Pairs[pi].Syns = nil
+				}
+			}
 			d.Syn = append(d.Syn, sf)
 		}
 		// insert at a random position among the ordinary documents
@@ -460,3 +484,65 @@ func ForceCardinality(b *Batch, rng *rand.Rand, field, term string, k int) {
 
 // EdgeCards are term cardinalities around the chunk-rule thresholds.
 var EdgeCards = []int{1023, 1024, 1025, 2047, 2048, 2049, 1, 1026}
+
+func genMulti(rng *rand.Rand, o GenOpts) *Batch {
+	b := &Batch{}
+	k := 2 + rng.Intn(8)
+	target := []int{1024, 2048}[rng.Intn(2)]
+	nDocs := target/k + 1 + rng.Intn(40) // docs*k >= target > docs (k >= 2)
+	if o.Docs > 0 {
+		nDocs = o.Docs
+	}
+	name := FieldPool[rng.Intn(len(FieldPool))]
+	other := FieldPool[rng.Intn(len(FieldPool))]
+	tv := rng.Intn(2) == 0
+	for d := 0; d < nDocs; d++ {
+		doc := Doc{ID: fmt.Sprintf("%smv%05d", o.IDPrefix, d), IDLast: d%2 == 0}
+		for i := 0; i < k; i++ {
+			f := FieldInst{Name: name, Type: 't', AP: []uint64{uint64(i)}, TV: tv, Len: 2}
+			tok := Tok{Term: "hot", Freq: 1}
+			if tv {
+				tok.Locs = []Loc{{Pos: uint64(i + 1), Start: uint64(4 * i), End: uint64(4*i + 3), AP: []uint64{uint64(i)}}}
+			}
+			f.Toks = append(f.Toks, tok)
+			if rng.Intn(3) == 0 {
+				f.Toks = append(f.Toks, Tok{Term: TermPool[rng.Intn(8)], Freq: 1})
+			}
+			doc.Fields = append(doc.Fields, f)
+		}
+		if other != name && d%3 == 0 {
+			doc.Fields = append(doc.Fields, FieldInst{Name: other, Type: 't', Len: 1, Stored: true, Value: []byte{byte(d)}, Toks: []Tok{{Term: "x", Freq: 1}}})
+		}
+		b.Docs = append(b.Docs, doc)
+	}
+	return b
+}
+
+func genXWide(rng *rand.Rand, o GenOpts) *Batch {
+	b := &Batch{}
+	nf := 129 + rng.Intn(20)
+	nDocs := 2 + rng.Intn(3)
+	for d := 0; d < nDocs; d++ {
+		doc := Doc{ID: fmt.Sprintf("%sxw%d", o.IDPrefix, d), IDLast: d%2 == 1}
+		for i := 0; i < nf; i++ {
+			if rng.Intn(5) == 0 && i != 126 && i != 127 && i != 128 {
+				continue
+			}
+			name := fmt.Sprintf("w%03d", i)
+			f := FieldInst{Name: name, Type: 't', TV: true, Len: 2, Stored: i%7 == 0, DV: i%5 == 0}
+			if f.Stored {
+				f.Value = []byte(name)
+			}
+			f.Toks = []Tok{{Term: TermPool[rng.Intn(4)], Freq: 1, Locs: []Loc{{Pos: 1, Start: uint64(i), End: uint64(i + 2)}}}, {Term: "z", Freq: 1, Locs: []Loc{{Pos: 2, Start: 3, End: 4}}}}
+			doc.Fields = append(doc.Fields, f)
+		}
+		if rng.Intn(2) == 0 {
+			doc.Composite = []FieldInst{compose("_all", doc.Fields)}
+		}
+		b.Docs = append(b.Docs, doc)
+	}
+	if o.Syn {
+		addSynonymDocs(rng, b, o.IDPrefix)
+	}
+	return b
+}
